@@ -1,10 +1,13 @@
 package posix
 
 import (
+	"bytes"
 	"encoding/hex"
 	"io"
+	"strconv"
 
 	"github.com/aws/aws-sdk-go-v2/service/s3"
+	"github.com/aws/aws-sdk-go-v2/service/s3/types"
 	"github.com/versity/versitygw/internal/zzvf"
 	"github.com/versity/versitygw/internal/zzvfos"
 	"github.com/versity/versitygw/s3api/utils"
@@ -76,4 +79,70 @@ func VfUploadPartIntegrity() {
 			zzvf.Assert(zzvf.And(size == oldSize, zzvf.BytesEq(data, oldData), etag == oldETag), "refused-part-keeps-previous-part")
 		}
 	}
+}
+
+// VfUploadPartCopy: C08 – posix.UploadPartCopy (real code) from a source object of 3 symbolic bytes that was stored by
+// PutObject or assembled by a multipart upload (ETag of the form "<md5>-1"), whole object or a byte range a-b: the part
+// holds exactly the selected source bytes, its returned and stored ETag is the hex MD5 of those bytes (what
+// CompleteMultipartUpload later compares and hashes), an unsatisfiable range is refused and leaves no part, and the source
+// is unchanged.
+func VfUploadPartCopy() {
+	vfWorld()
+	zzvfos.M.OTmpfile = zzvf.Choice("otmpfile_supported", 2) == 1
+	p := vfNewPosix(vfConfig{})
+	vfMustBucket(p, "bkt")
+	src, key := "src", "k"
+	body := zzvf.BytesN("source_body", 3)
+	three := int64(3)
+	if zzvf.Choice("source_is_multipart", 2) == 1 {
+		sup, err := p.CreateMultipartUpload(vfCtx(), s3response.CreateMultipartUploadInput{Bucket: vfStr("bkt"), Key: &src})
+		zzvf.Assert(err == nil, "setup-source-upload")
+		pn := int32(1)
+		spr, err := p.UploadPart(vfCtx(), &s3.UploadPartInput{Bucket: vfStr("bkt"), Key: &src, UploadId: &sup.UploadId, PartNumber: &pn, Body: bytes.NewReader(body), ContentLength: &three})
+		zzvf.Assert(err == nil, "setup-source-part")
+		if err != nil {
+			return
+		}
+		_, err = p.CompleteMultipartUpload(vfCtx(), &s3.CompleteMultipartUploadInput{Bucket: vfStr("bkt"), Key: &src, UploadId: &sup.UploadId,
+			MultipartUpload: &types.CompletedMultipartUpload{Parts: []types.CompletedPart{{PartNumber: &pn, ETag: spr.ETag}}}})
+		zzvf.Assert(err == nil, "setup-source-complete")
+	} else {
+		_, err := p.PutObject(vfCtx(), s3response.PutObjectInput{Bucket: vfStr("bkt"), Key: &src, Body: bytes.NewReader(body), ContentLength: &three})
+		zzvf.Assert(err == nil, "setup-source")
+	}
+	up, err := p.CreateMultipartUpload(vfCtx(), s3response.CreateMultipartUploadInput{Bucket: vfStr("bkt"), Key: &key})
+	zzvf.Assert(err == nil, "setup-upload")
+	rng := ""
+	lo, hi := 0, 2
+	valid := true
+	if zzvf.Choice("with_range", 2) == 1 {
+		lo, hi = zzvf.Choice("first", 4), zzvf.Choice("last", 4)
+		rng = "bytes=" + strconv.Itoa(lo) + "-" + strconv.Itoa(hi)
+		valid = lo <= hi && hi <= 2
+	}
+	pn := int32(1)
+	out, err := p.UploadPartCopy(vfCtx(), &s3.UploadPartCopyInput{Bucket: vfStr("bkt"), Key: &key, UploadId: &up.UploadId, PartNumber: &pn,
+		CopySource: vfStr("bkt/src"), CopySourceRange: &rng, ExpectedBucketOwner: vfStr("")})
+	path := vfPartPath("bkt", key, up.UploadId, pn)
+	exists, data, size, etag := vfObjectState(path)
+	if !valid {
+		zzvf.Reach("refused")
+		zzvf.Assert(err != nil, "invalid-copy-range-is-refused")
+		zzvf.Assert(!exists, "refused-copy-leaves-no-part")
+	} else {
+		zzvf.Reach("copied")
+		zzvf.Assert(err == nil, "valid-copy-succeeds")
+		if err != nil {
+			return
+		}
+		want := body[lo : hi+1]
+		sum := zzvf.SumMD5(want)
+		wantETag := hex.EncodeToString(sum[:])
+		zzvf.Assert(exists, "copied-part-exists")
+		zzvf.Assert(zzvf.And(size == int64(len(want)), zzvf.BytesEq(data, want)), "part-holds-exactly-the-selected-source-bytes")
+		zzvf.Assert(etag == wantETag, "stored-part-etag-is-md5-of-the-copied-bytes")
+		zzvf.Assert(out.ETag != nil && (*out.ETag == wantETag || *out.ETag == "\""+wantETag+"\""), "returned-part-etag-is-md5-of-the-copied-bytes")
+	}
+	_, sdata, _, _ := vfObjectState("bkt/src")
+	zzvf.Assert(zzvf.BytesEq(sdata, body), "copy-source-unchanged")
 }
